@@ -71,6 +71,7 @@ func convertToParagraph(data reflect.Value) (*Paragraph, error) {
 	paragraphType := reflect.TypeOf(Paragraph{})
 	var foundParagraph Paragraph = Paragraph{}
 	omitted := map[string]bool{}
+	known := map[string]bool{}
 
 	for i := 0; i < data.NumField(); i++ {
 		field := data.Field(i)
@@ -104,6 +105,7 @@ func convertToParagraph(data reflect.Value) (*Paragraph, error) {
 			return nil, err
 		}
 
+		known[paragraphKey] = true
 		required := fieldType.Tag.Get("required") == "true"
 		if data == "" && !required {
 			omitted[paragraphKey] = true
@@ -122,12 +124,31 @@ func convertToParagraph(data reflect.Value) (*Paragraph, error) {
 	 * the value it had when it was read. */
 	base := Paragraph{Order: []string{}, Values: map[string]string{}}
 	for _, key := range foundParagraph.Order {
+		value := foundParagraph.Values[key]
+		/* A field the struct knows under another spelling ("package" for
+		 * Package) is the struct's field: it keeps its place and is written
+		 * under the struct's name, once. */
+		key = structSpelling(known, key)
 		if !omitted[key] {
-			base.Set(key, foundParagraph.Values[key])
+			base.Set(key, value)
 		}
 	}
 	para := base.Update(Paragraph{Order: order, Values: values})
 	return &para, nil
+}
+
+// The struct's spelling of a field name: field names are not case-sensitive,
+// and `known` holds the names of the struct's fields.
+func structSpelling(known map[string]bool, key string) string {
+	if known[key] {
+		return key
+	}
+	for name := range known {
+		if equalFoldASCII(name, key) {
+			return name
+		}
+	}
+	return key
 }
 
 // }}}
